@@ -109,7 +109,7 @@ def canon_labels(labels):
             sign = -sign
         cur.pop(j)
         cur.pop(i)
-    order = sorted(range(len(cur)), key=lambda k: (repr(cur[k][0]), cur[k][1]))
+    order = sorted(range(len(cur)), key=lambda k: (cur[k][1], cur[k][0]))
     inv = sum(1 for x in range(len(order)) for y in range(x + 1, len(order)) if order[x] > order[y])
     if inv % 2:
         sign = -sign
